@@ -7,7 +7,8 @@ The Lean side (`SkNet.Topology.PrangeDesc.raceFree`) decides whether the loop is
 theorem `reduction_schedule_free` then gives parallel = sequential for every schedule.
 
 line format (blank-free tokens):
-  <function> <loopvar> <reductions: op:name,... | -> <other stores: kind:name,... | -> <reads of a reduction var>
+  <function> <loopvar> <reductions: op:name,... | -> <their declared C types: t,... ('~' for a blank, '?' unknown) | ->
+  <other stores: kind:name,... | -> <reads of a reduction var>
   <callees: name:known:nogil:nonlocal_stores:unknown_calls;... | ->
 """
 from Cython.Compiler.TreeFragment import parse_from_strings
@@ -48,6 +49,20 @@ def _arg_names(node):
     return names
 
 
+def _ctype(bt, declarator):
+    """Declared C type of a cdef variable as text (pointers / arrays / memoryviews are not scalars: '?')."""
+    if type(bt).__name__ != 'CSimpleBaseTypeNode' or type(declarator).__name__ != 'CNameDeclaratorNode':
+        return '?'
+    name = bt.name
+    if name == 'int':
+        name = {0: 'int', 1: 'long', 2: 'long long'}.get(bt.longness, 'int')
+        if bt.longness == -1:
+            name = 'short'
+    if getattr(bt, 'signed', 1) == 0:
+        name = 'unsigned ' + name
+    return name
+
+
 class _Collect(TreeVisitor):
     """stores / calls / name reads of a statement tree"""
 
@@ -57,6 +72,7 @@ class _Collect(TreeVisitor):
         self.calls = []
         self.reads = []
         self.locals = []
+        self.ctypes = {}      # declared C type of the cdef variables
         self.pranges = []
 
     def _target(self, lhs, inplace=False, op=''):
@@ -112,6 +128,7 @@ class _Collect(TreeVisitor):
                 dd = getattr(dd, 'base', None)
             if dd is not None:
                 self.locals.append(dd.name)
+                self.ctypes[dd.name] = _ctype(node.base_type, d)
             if getattr(d, 'default', None) is not None:
                 self.visit(d.default)
 
@@ -180,6 +197,7 @@ def describe(path):
             loopvar = getattr(loop.target, 'name', '?')
             reductions = [(s[3], s[1]) for s in body.stores if s[0] == 'name' and s[2]]
             others = [(s[0], s[1]) for s in body.stores if not (s[0] == 'name' and s[2])]
+            red_types = [c.ctypes.get(r[1], '?') for r in reductions]
             red_names = {r[1] for r in reductions}
             red_reads = sum(1 for r in body.reads if r in red_names)
             callees = []
@@ -195,11 +213,12 @@ def describe(path):
             line = ' '.join([
                 fname, loopvar,
                 ','.join('%s:%s' % r for r in reductions) or '-',
+                ','.join(t.replace(' ', '~') for t in red_types) or '-',
                 ','.join('%s:%s' % o for o in others) or '-',
                 str(red_reads),
                 ';'.join('%s:%d:%d:%d:%d' % c for c in callees) or '-'])
             out.append({'function': fname, 'loopvar': loopvar, 'reductions': reductions, 'other_stores': others,
-                        'reduction_reads': red_reads, 'callees': callees, 'line': line})
+                        'reduction_types': red_types, 'reduction_reads': red_reads, 'callees': callees, 'line': line})
     return out
 
 
